@@ -227,3 +227,89 @@ Proof.
   eexists. eexists. eexists. eexists. eexists. exists p, ns, nm. cbn zeta. split; [exact B|]. split; [exact E|exact D].
 Qed.
 Print Assumptions C17_second_manager_refuted.
+
+(* ---------------------------------------------------------------- *)
+(* Several NamespaceManagers over one store (model [world]). *)
+From RV Require Import Namespace.World Gen.Tables_nsdefaults.
+
+(* Every interleaving of operations through any of the managers, and of new managers binding
+   their stock prefixes, keeps the store's two dictionaries mutually inverse. *)
+Theorem C17_world_bijection : forall split split_s ncname ops,
+  let w := w_final split split_s ncname w_init ops in
+  NoDup (map fst (w_p2n w)) /\ NoDup (map snd (w_p2n w)) /\ NoDup (map fst (w_n2p w)) /\
+  (forall p n, In (p, n) (w_p2n w) <-> dget (w_p2n w) p = Some n) /\
+  (forall p n, dget (w_p2n w) p = Some n <-> dget (w_n2p w) n = Some p).
+Proof. exact w_bijection. Qed.
+Print Assumptions C17_world_bijection.
+
+(* ... and every answer is right about the store (prefix bound now to the namespace, expands
+   back) unless it is read from a cache entry that has become stale, which only a bind through
+   ANOTHER manager can cause: [w_kf c = 0] says no operation of the history did that. *)
+Theorem C17_world_spec_ok_model : forall c,
+  wc_wf c = true -> w_kf c = 0%N -> w_spec_ok c (w_model_obs c) = true.
+Proof. exact w_spec_ok_model. Qed.
+Print Assumptions C17_world_spec_ok_model.
+
+(* Without the trigger hypothesis the statement is false (finding F6e): bind(a, h:e/) and
+   qname(h:e/x) through manager 0, bind(b, h:e/) through manager 1, qname(h:e/x) through
+   manager 0 again answers a:x from its cache. *)
+Theorem C17_world_refuted :
+  exists c, wc_wf c = true /\ w_kf c = 5%N /\ w_spec_ok c (w_model_obs c) = false.
+Proof.
+  exists {| wc_cats := [(97, 1); (101, 1); (104, 1); (120, 1)]%N;
+            wc_ops := [WNew []; WNew [];
+                       WOp 0 (OBind (Some [97%N]) w_e true false); WOp 0 (OQname (w_e ++ [120%N]));
+                       WOp 1 (OBind (Some [98%N]) w_e true false); WOp 0 (OQname (w_e ++ [120%N]))] |}.
+  vm_compute. auto.
+Qed.
+Print Assumptions C17_world_refuted.
+
+(* The stock prefix tables reflected from the source: a fresh manager binds every one of them
+   (no prefix or namespace of the table displaces another). *)
+Example C17_stock_tables_bind_all :
+  map fst (w_p2n (w_final (fun _ => None) (fun _ => None) (fun _ => true) w_init [WNew stock_rdflib]))
+  = map fst stock_rdflib.
+Proof. vm_compute. reflexivity. Qed.
+
+(* ---------------------------------------------------------------- *)
+(* The Turtle serialiser's prefix handling (model Namespace/SerModel.v). *)
+From RV Require Import Namespace.SerModel Namespace.SerProofs.
+
+(* preprocess() after any history of manager operations: the store is still a bijection (and
+   the manager's caches right), the serialiser's prefix table has every prefix once, an entry
+   once made is never changed, and every name prefix:local that getQName handed out is
+   declared in the final table for a namespace ns with ns ++ local = the IRI (prefixes starting
+   with "_" or clashing are rewritten to p..., consistently). *)
+Theorem C17_serializer_names : forall split split_s ncname ops calls,
+  let s := m_final split split_s ncname m_init ops in
+  let z := ser_pre split s z_init calls in
+  bij (fst (fst z)) /\ NoDup (map fst (z_ns (snd (fst z)))) /\
+  Forall (fun e => match snd e with
+                   | QName p l => exists ns, dget (z_ns (snd (fst z))) p = Some ns /\
+                                             (exact split (fst e) -> ns ++ l = fst e)
+                   | _ => True
+                   end) (snd z).
+Proof.
+  intros split split_s ncname ops calls s z.
+  assert (Hg : good split split_s true s) by (apply m_final_good; [reflexivity|apply good_init]).
+  destruct (ser_pre_spec split split_s calls s z_init Hg) as (G & Z & _ & N); [constructor|].
+  split; [exact (proj1 G)|]. split; [exact Z|exact N].
+Qed.
+Print Assumptions C17_serializer_names.
+
+Theorem C17_serializer_add_namespace : forall t prefix ns, NoDup (map fst (z_ns t)) ->
+  NoDup (map fst (z_ns (fst (add_ns t prefix ns)))) /\
+  (forall k v, dget (z_ns t) k = Some v -> dget (z_ns (fst (add_ns t prefix ns))) k = Some v) /\
+  (forall p, snd (add_ns t prefix ns) = Some p -> dget (z_ns (fst (add_ns t prefix ns))) p = Some ns).
+Proof. exact add_ns_spec. Qed.
+Print Assumptions C17_serializer_add_namespace.
+
+(* the @prefix header, sorted(self.namespaces.items()), is a permutation of the table *)
+Theorem C17_serializer_header : forall t, Permutation.Permutation (header_of t) (z_ns t).
+Proof. exact header_perm. Qed.
+Print Assumptions C17_serializer_header.
+
+(* what the nsserial suite evaluates on the implementation's answers holds of the model *)
+Theorem C17_serializer_spec_model : forall c, ser_spec c (ser_model c) = true.
+Proof. exact ser_spec_model. Qed.
+Print Assumptions C17_serializer_spec_model.
